@@ -199,6 +199,14 @@ class Run(object):
         self.tr.clear()
         wrote = []
         while data:
+            # a command whose own text spans several lines (a "+" command given complete with the line that ends it): it is
+            # written verbatim, followed by CR LF like any other
+            multi = [c for c in self.cmds if not c["written"] and b"\r\n" in c["text"] and data.startswith(c["text"] + b"\r\n")]
+            if multi:
+                multi[0]["written"] = True
+                data = data[len(multi[0]["text"]) + 2:]
+                wrote.append([self.cmds.index(multi[0]) + 1, []])
+                continue
             i = data.find(b"\r\n")
             if i < 0:
                 wrote.append([-1, []])
@@ -303,6 +311,9 @@ class Run(object):
             elif a == "Submit":
                 serial = len(self.cmds) + 1
                 text = "GETINFO k%d" % serial
+                if e["k"] == "plain" and serial % 5 == 3:
+                    # a multi-line command, handed over complete with the line that ends it
+                    text = "+LOADCONF\r\nSocksPort %d\r\nLog notice stdout\r\n.\r\n" % (9000 + serial)
                 if e["k"] == "cb":
                     ret = e.get("ret", "none")
 
